@@ -494,6 +494,9 @@ func gen(c *harness.C) []harness.Case {
 		}
 	}
 	var cases []harness.Case
+	if overlapSlice == "" {
+		cases = append(cases, stallCases()...)
+	}
 	for _, mode := range []string{"loud", "silent"} {
 		mode := mode
 		// one case per (first, second) pair: the worker enumerates the deeper suffixes
